@@ -1,0 +1,40 @@
+//go:build verif
+
+package eval
+
+// Contracts for the govc verifier (/verif). Comment-only file: it contains no
+// executable code and is compiled only with the build tag `verif`.
+
+// spec function inI64 is defined in types/zz_contracts_verif.go (spec functions are global)
+
+//@ func checkedAddI64
+//@   props C01
+//@   arith checked
+//@   results res, ok
+//@   wraps "lhs + rhs"
+//@   ensures ok == inI64(lhs + rhs)
+//@   ensures ok ==> res == lhs + rhs
+
+//@ func checkedSubI64
+//@   props C01
+//@   arith checked
+//@   results res, ok
+//@   wraps "lhs - rhs"
+//@   ensures ok == inI64(lhs - rhs)
+//@   ensures ok ==> res == lhs - rhs
+
+//@ func checkedMulI64
+//@   props C01
+//@   arith checked
+//@   results res, ok
+//@   wraps "lhs * rhs"
+//@   wraps "result / lhs"
+//@   ensures ok == inI64(lhs * rhs)
+//@   ensures ok ==> res == lhs * rhs
+
+//@ func checkedNegI64
+//@   props C01
+//@   arith checked
+//@   results res, ok
+//@   ensures ok == inI64(-a)
+//@   ensures ok ==> res == -a
